@@ -4,7 +4,7 @@
 #include "hcommon.h"
 #include <ctype.h>
 
-static const char SYM[8] = { 'a', 'b', ' ', ',', '"', '\'', '\\', '\t' };
+static char SYM[8] = { 'a', 'b', ' ', ',', '"', '\'', '\\', '\t' };        /* --hb=N replaces the second letter by the byte N (0xA0, 0x89: bytes that toascii() turns into blanks) */
 #define NSYM 8
 static const char *DELIMS[3] = { NULL, ",", ", " };
 static int g_len;
@@ -188,7 +188,9 @@ int main(int argc, char **argv)
     libast_debug_level = (unsigned) mc_dlevel();        /* --dlevel=N: the whole run at runtime debug level N (default 0) */
     int N = (int) mc_arg_int("N", mc_thorough() ? 8 : 5);
     if (N > 10) N = 10;
-    mc_info("alphabet", "all strings of length <= %d over {a,b,space,',','\"','\\'','\\\\',tab} x delimiter sets {whitespace, \",\", \", \"}; word indices 0..num_words+2; join/split round trips of <= 4 plain tokens", N);
+    int hb = (int) mc_arg_int("hb", 'b');
+    SYM[1] = (char) hb;
+    mc_info("alphabet", "all strings of length <= %d over {a,b (or the byte given with --hb),space,',','\"','\\'','\\\\',tab} x delimiter sets {whitespace, \",\", \", \"}; word indices 0..num_words+2; join/split round trips of <= 4 plain tokens", N);
     mc_e2_level("roundtrip", 4, 3 * 4 * 6 * 6 * 6 * 6, rt_case, rt_desc, NULL);
     for (g_len = 0; g_len <= N; g_len++)
         if (!mc_e2_level("tokens", g_len, mc_words_of_len(NSYM, g_len), case_fn, desc, NULL)) break;
